@@ -31,7 +31,9 @@ REPO = Path(os.environ.get("VERIF_REPO", "/repo"))
 COQ = VERIF / "coq"
 GEN = COQ / "Gen"
 CASES = COQ / "Cases"
-EVIDENCE = VERIF / "evidence"
+# evidence describes /repo; a run pointed at another tree (VERIF_REPO=<scratch worktree with a seeded patch>) writes its
+# record elsewhere so that it can never replace, or be committed as, the record of the unchanged tree
+EVIDENCE = (VERIF / "evidence") if os.environ.get("VERIF_REPO", "/repo") == "/repo" else (VERIF / "replays" / "evidence_other_tree")
 REPLAYS = VERIF / "replays"
 CORPUS = VERIF / "corpus"
 NCPU = os.cpu_count() or 4
